@@ -127,3 +127,13 @@ End Keyed.
 
 Arguments AUse {tok} t.
 Arguments AEnd {tok}.
+Arguments get {st} m k.
+Arguments set {st} m k s.
+Arguments remove {st} m k.
+Arguments obs {out} i tr.
+Arguments toks_of {tok} i h.
+Arguments wf_from {tok} kof reuse live dead h.
+Arguments wf {tok} kof reuse h.
+Arguments live_after {tok} live h.
+Arguments comp {tok} ts.
+Arguments Merge {tok} ps h.
